@@ -16,6 +16,10 @@ WHY = {
         "empty branch: the storage stores nothing whatever the inputs; only link / list edits change that and they recompute the object",
     ("efootprint/core/hardware/storage.py", "drop left_parent=self.raw_nb_of_instances"):
         "empty branch (no stored data): see above",
+    ("efootprint/builders/services/generative_ai_ecologits.py", "drop left_parent=self.provider"):
+        "equivalent in practice: the provider can only change together with the model name (disjoint lists per provider), which stays a parent",
+    ("efootprint/builders/hardware/boavizta_cloud_server.py", "drop left_parent=self.provider"):
+        "equivalent in practice: the provider can only change together with the instance type, which stays a parent",
     ("efootprint/core/hardware/server_base.py", "drop left_parent=self.raw_nb_of_instances"):
         "empty branch (server without load): only link / list edits change that and they recompute the object",
 }
